@@ -251,7 +251,10 @@ func h6FileRuntime(env *Env, c *H1Cfg, hr *h1Run, stats simrt.Stats, kept []int)
 		handles := map[int]bool{}
 		begun := 0
 		for _, b := range g.Bodies {
-			if b.BeginNs <= w0 || b.BeginNs >= w1 || b.BeginNs >= stop {
+			// (a body that begins at the very instant its stage starts is judged too when nothing of an earlier stage
+			// can still be pending: short bodies, enough workers)
+			atStart := b.BeginNs == w0 && !fe.SlowBodies && fe.Concurrency >= 8
+			if (b.BeginNs <= w0 && !atStart) || b.BeginNs >= w1 || b.BeginNs >= stop {
 				if b.BeginNs == w0 {
 					begun++
 				}
